@@ -46,6 +46,9 @@ var pkgAlias = map[string]string{
 func q(spec string) string {
 	i := strings.Index(spec, ".")
 	if i < 0 {
+		if full, ok := pkgAlias[spec]; ok {
+			return full
+		}
 		return spec
 	}
 	if full, ok := pkgAlias[spec[:i]]; ok {
@@ -111,7 +114,12 @@ func ssaFuncName(fn *ssa.Function) string {
 func calleeName(c ssa.CallInstruction) string {
 	cc := c.Common()
 	if cc.IsInvoke() {
-		return funcName(cc.Method)
+		n := funcName(cc.Method)
+		// KVStore embeds BasicKVStore: name the store operations uniformly
+		if strings.HasPrefix(n, "cosmossdk.io/store/types.BasicKVStore.") {
+			n = "cosmossdk.io/store/types.KVStore." + strings.TrimPrefix(n, "cosmossdk.io/store/types.BasicKVStore.")
+		}
+		return n
 	}
 	if f := cc.StaticCallee(); f != nil {
 		return ssaFuncName(f)
@@ -381,7 +389,21 @@ func singleStore(a *ssa.Alloc) ssa.Value {
 			if strings.Contains(nm, "Unmarshal") || strings.Contains(nm, ".Reset") {
 				return nil
 			}
-		case *ssa.MakeClosure, *ssa.MakeInterface, *ssa.Phi:
+		case *ssa.MakeClosure:
+			// captured by a closure: fine as long as the closure only reads it
+			if fn, ok := x.Fn.(*ssa.Function); ok {
+				for i, b := range x.Bindings {
+					if b != ssa.Value(a) || i >= len(fn.FreeVars) {
+						continue
+					}
+					if freeVarWritten(fn.FreeVars[i]) {
+						return nil
+					}
+				}
+			} else {
+				return nil
+			}
+		case *ssa.MakeInterface, *ssa.Phi:
 			return nil
 		case *ssa.FieldAddr:
 			// a later write through a field changes the stored struct
@@ -396,6 +418,33 @@ func singleStore(a *ssa.Alloc) ssa.Value {
 		return val
 	}
 	return nil
+}
+
+// freeVarWritten: the closure (or a nested closure) stores through the captured variable.
+func freeVarWritten(fv *ssa.FreeVar) bool {
+	for _, r := range *fv.Referrers() {
+		switch x := r.(type) {
+		case *ssa.Store:
+			if x.Addr == ssa.Value(fv) {
+				return true
+			}
+		case *ssa.MakeClosure:
+			if fn, ok := x.Fn.(*ssa.Function); ok {
+				for i, b := range x.Bindings {
+					if b == ssa.Value(fv) && i < len(fn.FreeVars) && freeVarWritten(fn.FreeVars[i]) {
+						return true
+					}
+				}
+			}
+		case *ssa.FieldAddr:
+			for _, rr := range *x.Referrers() {
+				if st, ok := rr.(*ssa.Store); ok && st.Addr == x {
+					return true
+				}
+			}
+		}
+	}
+	return false
 }
 
 // callOf: if v (after strip) is a call result or an extract of one, return the call and the tuple
@@ -436,10 +485,51 @@ func roots(v ssa.Value) []ssa.Value {
 				return
 			}
 		}
+		// load of a local cell written several times (loop accumulators captured by closures):
+		// flow-insensitively, any stored value may be read
+		if u, ok := v.(*ssa.UnOp); ok && u.Op == token.MUL {
+			if a, ok := u.X.(*ssa.Alloc); ok && !a.Heap || ok && cellOnlyStoredLocally(a) {
+				n := 0
+				for _, r := range *a.Referrers() {
+					if st, ok := r.(*ssa.Store); ok && st.Addr == ssa.Value(a) {
+						n++
+						walk(st.Val, d+1)
+					}
+				}
+				if n > 0 {
+					return
+				}
+			}
+		}
 		out = append(out, v)
 	}
 	walk(v, 0)
 	return out
+}
+
+// cellOnlyStoredLocally: a heap cell (captured variable) whose capturing closures never write it.
+func cellOnlyStoredLocally(a *ssa.Alloc) bool {
+	for _, r := range *a.Referrers() {
+		switch x := r.(type) {
+		case *ssa.MakeClosure:
+			fn, ok := x.Fn.(*ssa.Function)
+			if !ok {
+				return false
+			}
+			for i, b := range x.Bindings {
+				if b == ssa.Value(a) && i < len(fn.FreeVars) && freeVarWritten(fn.FreeVars[i]) {
+					return false
+				}
+			}
+		case ssa.CallInstruction:
+			for _, arg := range callArgs(x) {
+				if arg == ssa.Value(a) {
+					return false
+				}
+			}
+		}
+	}
+	return true
 }
 
 // vkey: a structural key for side-effect-free expressions (parameters, constants, field loads,
